@@ -481,7 +481,8 @@ Inductive op :=
 | OCollect (n : nat)
 | OReset (n : nat)
 | OWrite (n : nat) (d : bytes)      (* node.data = d, out of band: no invalidation *)
-| OSwhid (n : nat).                 (* Directory.swhid() / Content.swhid(): the identifier derived from .hash *)
+| OSwhid (n : nat)                  (* Directory.swhid() / Content.swhid(): the identifier derived from .hash *)
+| OEq (a b : nat).                  (* a == b  (MerkleNode.__eq__; a != b is its negation): no hash is computed *)
 
 Inductive out :=
 | OutUnit | OutHandle (n : nat) | OutBool (b : bool) | OutHash (h : bytes)
@@ -515,6 +516,7 @@ Definition step (s : heap) (o : op) : heap * out :=
   | OReset n => match reset_collect (S (length s)) n s with Ok s' => (s', OutUnit) | Err e => (s, OutErr e) end
   | OWrite n d => match get s n with Ok _ => (upd n (set_data d) s, OutUnit) | Err e => (s, OutErr e) end
   | OSwhid n => of_res s (swhid NH old_truthy n s) OutHash
+  | OEq a b => (s, OutBool (node_eqb (S (length s)) s a b))
   end.
 
 (* run a history from a state, collecting the outputs *)
